@@ -31,6 +31,9 @@ still that value after fitting                       fixed_survives_fit_partial 
                                                        (log (exp v) = v, 1/(1/v) = v). FULL STATEMENT (scipy honours
                                                        the contract; |after − f| ≤ 1e-12·|f| in floating point; free
                                                        parameters finite and moved) is observed on real fits only.
+  draw_sample (not in the generated call table)      no theorem: OBSERVED per run (harness/c11.py check_draw, seeded comparison
+                                                       with the instance constructed with the effective values; instance
+                                                       and ConditionalDistribution, scalar / array conditioning value)
 least squares where implemented                      ew_lsq_supported_sets
 conditional distributions: constant in `given`       cond_fixed_const, condParamValue_fixed
 defects this found (DESIGN 4 #2, #3, #4)             ctor_counterexample_old_vonmises,
